@@ -17,6 +17,7 @@ using namespace vf;
 namespace cb = covfie::backend;
 namespace cv = covfie::vector;
 
+static std::string g_which = "both";   // "clamp" (C10) or "backup" (C11): a check only executes the layer its property is about
 template <typename T> static const char * tname();
 template <> const char * tname<std::size_t>() { return "size_t"; }
 template <> const char * tname<unsigned>() { return "unsigned"; }
@@ -76,14 +77,14 @@ static void run_case(const json & c, int mode) {
     json ctx = {{"type", tag}, {"lo", jl}, {"hi", jh}, {"x", jx}};
     ++g_cases;
     // ---- C10: clamp over identity: the returned value is the coordinate the backend was asked for
-    {
+    if (g_which != "backup") {
         covfie::field<CI> f(covfie::make_parameter_pack(typename CI::configuration_t{lo, hi}, std::monostate{}));
         typename covfie::field<CI>::view_t v(f);
         auto r = v.at(x);
         for (std::size_t i = 0; i < N; ++i) expect_eq("clamp/identity/" + tag, (long double)r[i], (long double)want[i], ctx);
     }
     // ---- C10: clamp over the probe: queried coordinate, query count, returned value
-    {
+    if (g_which != "backup") {
         covfie::field<CL> f(covfie::make_parameter_pack(typename CL::configuration_t{lo, hi}, typename P::configuration_t{0}));
         typename covfie::field<CL>::view_t v(f);
         g_probe.reset();
@@ -95,7 +96,7 @@ static void run_case(const json & c, int mode) {
         for (std::size_t q = 0; q < 2; ++q) expect_eq("clamp/probe-value/" + tag, (double)r[q], (double)probe_value<float>(wc, N, q), ctx);
     }
     // ---- C11: backup over the probe
-    {
+    if (g_which != "clamp") {
         covfie::array::array<float, 2> def;
         def[0] = -7.5f; def[1] = 123456.f;
         covfie::field<BK> f(covfie::make_parameter_pack(typename BK::configuration_t{lo, hi, def}, typename P::configuration_t{0}));
@@ -249,17 +250,20 @@ static void trace_box(rng & r, std::ofstream & out, long n, long & events) {
             x[i] = r.below(3) == 0 ? random_value<T>(r) : nudge<T>(r.below(2) ? a : b, r);
             rel.push_back(relation<T>(x[i], a, b)); deg.push_back(a == b);
         }
-        covfie::field<CI> fc(covfie::make_parameter_pack(typename CI::configuration_t{lo, hi}, std::monostate{}));
-        auto rc = typename covfie::field<CI>::view_t(fc).at(x);
-        std::vector<int> eqlo, eqhi, eqx;
-        for (std::size_t i = 0; i < N; ++i) { eqlo.push_back(rc[i] == lo[i]); eqhi.push_back(rc[i] == hi[i]); eqx.push_back(rc[i] == x[i]); }
+        if (g_which != "backup") {
+            covfie::field<CI> fc(covfie::make_parameter_pack(typename CI::configuration_t{lo, hi}, std::monostate{}));
+            auto rc = typename covfie::field<CI>::view_t(fc).at(x);
+            std::vector<int> eqlo, eqhi, eqx;
+            for (std::size_t i = 0; i < N; ++i) { eqlo.push_back(rc[i] == lo[i]); eqhi.push_back(rc[i] == hi[i]); eqx.push_back(rc[i] == x[i]); }
+            out << json({{"e", "clampbox"}, {"type", tname<T>()}, {"rel", rel}, {"deg", deg}, {"eqlo", eqlo}, {"eqhi", eqhi}, {"eqx", eqx}}).dump() << "\n";
+        }
+        if (g_which == "clamp") { ++events; continue; }
         covfie::array::array<float, 2> def; def[0] = -7.5f; def[1] = 123456.f;
         covfie::field<BK> fb(covfie::make_parameter_pack(typename BK::configuration_t{lo, hi, def}, typename P::configuration_t{0}));
         g_probe.reset();
         auto rb = typename covfie::field<BK>::view_t(fb).at(x);
         bool is_default = rb[0] == -7.5f && rb[1] == 123456.f;
         bool same_coord = true; for (std::size_t i = 0; i < N; ++i) if (g_probe.queries && g_probe.last[i] != (long double)x[i]) same_coord = false;
-        out << json({{"e", "clampbox"}, {"type", tname<T>()}, {"rel", rel}, {"deg", deg}, {"eqlo", eqlo}, {"eqhi", eqhi}, {"eqx", eqx}}).dump() << "\n";
         out << json({{"e", "backupbox"}, {"type", tname<T>()}, {"rel", rel}, {"deg", deg}, {"is_default", is_default},
                      {"queries", g_probe.queries}, {"queried_at_x", same_coord}}).dump() << "\n";
         ++events;
@@ -274,6 +278,7 @@ int main(int argc, char ** argv) {
         rng r(std::strtoull(argv[2], nullptr, 10));
         long n = std::atol(argv[3]);
         std::ofstream out(argv[4]);
+        if (argc > 5) g_which = argv[5];
         long events = 0;
         trace_box<int, 1>(r, out, n, events); trace_box<unsigned, 2>(r, out, n, events); trace_box<std::size_t, 3>(r, out, n, events);
         trace_box<float, 1>(r, out, n, events); trace_box<float, 4>(r, out, n, events); trace_box<double, 2>(r, out, n, events); trace_box<double, 3>(r, out, n, events);
@@ -283,11 +288,14 @@ int main(int argc, char ** argv) {
         return 0;
     }
     if (mode == "replay") {
+        if (argc > 3) g_which = argv[3];
         for (auto & c : read_ndjson(argv[2])) {
             run_types<int>(c); run_types<unsigned>(c); run_types<std::size_t>(c); run_types<float>(c); run_types<double>(c);
         }
-        storage_safety_int<int>(); storage_safety_int<unsigned>(); storage_safety_int<std::size_t>();
-        storage_safety_real<float>(); storage_safety_real<double>();
+        if (g_which != "backup") {
+            storage_safety_int<int>(); storage_safety_int<unsigned>(); storage_safety_int<std::size_t>();
+            storage_safety_real<float>(); storage_safety_real<double>();
+        }
         summary();
     }
     return 0;
